@@ -7,5 +7,6 @@ CONSTANTS
   FixEnqueue = TRUE
   FixBatch = FALSE
   LossySend = FALSE
+  HasKeepalive = TRUE
 POSTCONDITION TraceReport
 CHECK_DEADLOCK FALSE
